@@ -70,14 +70,8 @@ ResClauses(r) ==
                     "only files inside the root">> >>
 
 \* ---- unify_path
-FoldOf(r, c) == IF \E k \in 1..Len(r.fold) : r.fold[k][1] = c
-                THEN r.fold[CHOOSE k \in 1..Len(r.fold) : r.fold[k][1] = c][2] ELSE c
-AllFwdToks(toks) == \A k \in 1..Len(toks) : toks[k].s # BS
 UnifyClauses(r) ==
-    LET toks == ToksOf(r.toks)
-        norm == UnifyNorm(toks)
-        want == [k \in 1..Len(norm) |-> FoldOf(r, norm[k])]
-    IN
+    LET toks == ToksOf(r.toks) IN
     << <<"input.text", PathStr(toks) = r.str, PathStr(toks)>>,
        <<"input.domain", r.src = "exh" => ToSet(r.body) \subseteq UAlphabet /\ Len(r.body) <= MaxLen
                           /\ toks = Tokens(r.cfg, r.body, <<>>), "in family">>,
@@ -85,49 +79,6 @@ UnifyClauses(r) ==
        <<"unify.rejects", UnifyClimbs(toks) => r.e # "", "rejected">>,
        \* ... and whatever is returned is not itself a climbing path
        <<"unify.result", r.e = "" => ~Climbs(r.rescomps), "a path below the pack root">> >>
-
-Clauses(r) ==
-    LET x == XOf(r) oo == OpenOutcome(x) go == GetOutcome(x) wo == WalkOutcome(x) b == r.b IN
-    << <<"input.text", PathStr(x.toks) = r.str /\ LocStr(x.root) = r.rootstr, PathStr(x.toks)>>,
-       <<"input.domain",
-           r.src = "exh" =>
-              /\ ToSet(r.body) \subseteq Alphabet /\ Len(r.body) <= MaxLen
-              /\ (r.cfg.pre # "rel" => Len(r.body) >= 1)
-              /\ x.toks = Tokens(r.cfg, r.body, r.b)
-              /\ r.pfx = <<"sub">>, "in family">>,
-       \* a name that leaves the root is refused; a name that stays inside reaches exactly the file
-       \* at that location (or none), or is refused
-       <<"has.outcome", ClassHas(r.has) = oo.k \/ Refused(ClassHas(r.has), oo), Show(b, oo)>>,
-       \* fs[name] then File.open: the File may carry the caller's spelling with backslashes
-       \* rewritten (resolved again, under the same containment rule) or the resolved location
-       <<"get.outcome", \/ Same(ClassOpen(r.get), Tags(r.get), oo) \/ Same(ClassOpen(r.get), Tags(r.get), go)
-                        \/ Refused(ClassOpen(r.get), oo), Show(b, oo)>>,
-       <<"ob.outcome", Same(ClassOpen(r.ob), Tags(r.ob), oo) \/ Refused(ClassOpen(r.ob), oo), Show(b, oo)>>,
-       <<"os.outcome", Same(ClassOpen(r.os), Tags(r.os), oo) \/ Refused(ClassOpen(r.os), oo), Show(b, oo)>>,
-       <<"walk.outcome", Same(ClassWalk(r.walk), Tags(r.walk), wo) \/ Refused(ClassWalk(r.walk), wo), Show(b, wo)>>,
-       \* independent of the resolution above: nothing that was read lies outside the root
-       <<"contain", AllTags(r) \subseteq InsideTags /\ AllReals(r) \subseteq InsideReals(r.b),
-                    "only files inside the root">> >>
-
-\* ---- unify_path
-FoldOf(r, c) == IF \E k \in 1..Len(r.fold) : r.fold[k][1] = c
-                THEN r.fold[CHOOSE k \in 1..Len(r.fold) : r.fold[k][1] = c][2] ELSE c
-AllFwdToks(toks) == \A k \in 1..Len(toks) : toks[k].s # BS
-UnifyClauses(r) ==
-    LET toks == ToksOf(r.toks)
-        norm == UnifyNorm(toks)
-        want == [k \in 1..Len(norm) |-> FoldOf(r, norm[k])]
-    IN
-    << <<"input.text", PathStr(toks) = r.str, PathStr(toks)>>,
-       <<"input.domain", r.src = "exh" => ToSet(r.body) \subseteq UAlphabet /\ Len(r.body) <= MaxLen
-                          /\ toks = Tokens(r.cfg, r.body, <<>>), "in family">>,
-       \* the property: a path that climbs above the pack root is rejected
-       <<"unify.rejects", UnifyClimbs(toks) => r.e = "ValueError", "ValueError">>,
-       \* ... and whatever is returned is not itself a climbing path
-       <<"unify.result", r.e = "" => ~Climbs(r.rescomps), "a path below the pack root">>,
-       \* forward-slash inputs: exactly the folded normal form, and no spurious rejection
-       <<"unify.normal", (AllFwdToks(toks) /\ ~UnifyClimbs(toks)) =>
-                           (r.e = "" /\ NormalizeRel(r.rescomps) = want /\ (r.rescomps = want \/ r.rescomps = <<".">>)), want>> >>
 
 Clauses(r) == CASE r.k = "res" -> ResClauses(r) [] r.k = "unify" -> UnifyClauses(r)
 
